@@ -53,7 +53,14 @@ func (r *srepo) add(op string, i int) {
 func mtOf(i int) string { return lib.Formats[i%2] }
 
 func sigDesc(i int) ocispec.Descriptor {
-	return ocispec.Descriptor{MediaType: ocispec.MediaTypeImageManifest, Digest: digest.FromString(fmt.Sprint("sig", i)), Size: int64(100 + i)}
+	// (listed descriptors carry the creation time of the signature manifest, as registries report it: oldest first here,
+	// except that #2 is the newest of all - the listing order is the order of the listing, not of any annotation)
+	created := time.Date(2026, 1, 1+i, 0, 0, 0, 0, time.UTC)
+	if i == 2 {
+		created = time.Date(2026, 6, 1, 0, 0, 0, 0, time.UTC)
+	}
+	return ocispec.Descriptor{MediaType: ocispec.MediaTypeImageManifest, Digest: digest.FromString(fmt.Sprint("sig", i)), Size: int64(100 + i),
+		Annotations: map[string]string{ocispec.AnnotationCreated: created.Format(time.RFC3339)}}
 }
 
 func (r *srepo) Resolve(ctx context.Context, ref string) (ocispec.Descriptor, error) {
@@ -101,6 +108,11 @@ func (r *srepo) PushSignature(ctx context.Context, mt string, blob []byte, subje
 	return ocispec.Descriptor{}, ocispec.Descriptor{}, errors.New("not used")
 }
 
+var (
+	callerUserMetadata = map[string]string{"required-by-the-caller": "yes"}
+	callerPluginConfig = map[string]string{"plugin-setting": "value", "another": "x"}
+)
+
 // sver is the scripted verifier: blob[0]=='v' verifies, anything else fails with (outcome-with-error, error) like the real verifier.
 type sver struct {
 	skip bool
@@ -111,6 +123,10 @@ func (v *sver) Verify(ctx context.Context, desc ocispec.Descriptor, sig []byte, 
 	v.repo.add("verify", int(sig[1]))
 	if opts.SignatureMediaType != mtOf(int(sig[1])) {
 		v.repo.add("verify-with-wrong-media-type", int(sig[1]))
+	}
+	// the caller's options reach the verifier as given: the metadata requirement and the plugin configuration are two things
+	if !reflect.DeepEqual(opts.UserMetadata, callerUserMetadata) || !reflect.DeepEqual(opts.PluginConfig, callerPluginConfig) || opts.ArtifactReference == "" {
+		v.repo.add("verify-with-other-options", int(sig[1]))
 	}
 	out := &notation.VerificationOutcome{RawSignature: sig, VerificationLevel: trustpolicy.LevelStrict}
 	if sig[0] == 'v' {
@@ -345,7 +361,11 @@ func main() {
 		case "mismatch-sha512":
 			ref += "@" + digest.SHA512.FromString("c10 artifact").String() // another algorithm is still another digest
 		}
-		desc, outs, err := notation.Verify(context.Background(), v, repo, notation.VerifyOptions{ArtifactReference: ref, MaxSignatureAttempts: s.N})
+		var vUserMeta, vPluginCfg map[string]string
+		if !s.real { // (the real verifier would enforce the metadata requirement; the scripted one records what it is handed)
+			vUserMeta, vPluginCfg = callerUserMetadata, callerPluginConfig
+		}
+		desc, outs, err := notation.Verify(context.Background(), v, repo, notation.VerifyOptions{ArtifactReference: ref, MaxSignatureAttempts: s.N, UserMetadata: vUserMeta, PluginConfig: vPluginCfg})
 
 		// ---- model (appendix C)
 		wantOK, istar := false, -1
@@ -440,6 +460,8 @@ func main() {
 				if wantOK && istar >= 0 && c.idx > istar {
 					r.Violation(sig("trace-fetch-after-first-good"), fmt.Sprintf("signature #%d fetched after the first good signature #%d", c.idx+1, istar+1), wit)
 				}
+			case "verify-with-other-options":
+				r.Violation(sig("trace-verify-options"), fmt.Sprintf("signature #%d was handed to the verifier with other options than the caller gave (user metadata / plugin configuration / reference)", c.idx+1), wit)
 			case "verify-with-wrong-media-type":
 				r.Violation(sig("trace-verify-media-type"), fmt.Sprintf("signature #%d was handed to the verifier with a media type other than the one its envelope was fetched with", c.idx+1), wit)
 			case "verify":
